@@ -80,12 +80,19 @@ def run(pid, spec, tier, seed, outdir):
         cmd = ["go", "test", "./" + PKG, "-run", "^$", "-fuzz", "^%s$" % tg, "-fuzztime", fuzztime,
                "-parallel", str(vlib.NCPU), "-test.fuzzcachedir", cache, "-timeout", "30m"]
         t0 = time.time()
-        try:
-            p = subprocess.run(cmd, cwd=vlib.HARNESS, env=env, stdout=subprocess.PIPE, stderr=subprocess.STDOUT,
-                               text=True, errors="replace", timeout=3600)
-            out, rc = p.stdout, p.returncode
-        except subprocess.TimeoutExpired as e:
-            out, rc = (e.stdout or "") + "\nTIMEOUT", -1
+        for attempt in range(3):
+            try:
+                p = subprocess.run(cmd, cwd=vlib.HARNESS, env=env, stdout=subprocess.PIPE, stderr=subprocess.STDOUT,
+                                   text=True, errors="replace", timeout=3600)
+                out, rc = p.stdout, p.returncode
+            except subprocess.TimeoutExpired as e:
+                out, rc = (e.stdout or "") + "\nTIMEOUT", -1
+            # a fuzz worker that is killed or starved on a busy machine ends the run without saving an input
+            # ("fuzzing process hung or terminated unexpectedly"): not a verdict, try again
+            if rc != 0 and not (listing(tdir) - before) and "hung or terminated unexpectedly" in out and attempt < 2:
+                report.setdefault("retries", []).append(tg)
+                continue
+            break
         wall = time.time() - t0
         open(os.path.join(outdir, "fuzz-%s.log" % tg), "w").write(out)
         execs = [int(x) for x in re.findall(r"execs: (\d+)", out)]
